@@ -17,10 +17,13 @@ vars == <<lowForm, upForm, flag, vs, fmt>>
 QuickLM == {Big(-1, 15, 0), Big(-1, 7, 0), Zero, Big(1, 7, 0), Big(1, 8, 0), Big(1, 15, 0), Big(1, 16, 0)}
 MoreLM  == {Big(-1, 63, 0), Big(-1, 31, 0), Big(1, 31, 0), Big(1, 32, 0), Big(1, 63, 0), Big(1, 64, 0)}
 LM == IF Tier = "quick" THEN QuickLM ELSE QuickLM \cup MoreLM
-BoundVals == {Plus(l, o) : l \in LM, o \in {-1, 0, 1}}
+\* bounds strictly INSIDE a type's range (118, -118, 32758, -32758): one side on a type limit, the other inside, is the
+\* case in which exactly one check may be dropped
+Interior == {Big(1, 7, -10), Big(-1, 7, 10), Big(1, 15, -10), Big(-1, 15, 10)}
+BoundVals == {Plus(l, o) : l \in LM, o \in {-1, 0, 1}} \cup Interior
 \* the inclusive value of a side that is stated twice stays around the 8/16-bit limits (its partner sits there) in both tiers
 QuickBoundVals == {Plus(l, o) : l \in QuickLM, o \in {-1, 0, 1}}
-DocVals == {Plus(l, o) : l \in LM \ {Big(1, 63, 0), Big(1, 64, 0)}, o \in {-2, -1, 0, 1}}
+DocVals == {Plus(l, o) : l \in LM \ {Big(1, 63, 0), Big(1, 64, 0)}, o \in {-2, -1, 0, 1}} \cup {Plus(x, o) : x \in Interior, o \in {-1, 0, 1}}
            \cup (IF Tier = "quick" THEN {} ELSE {Big(1, 63, -1), Big(1, 63, -2), Big(-1, 63, 0), Big(-1, 63, 1)})
 InInt64(x) == NumLE(MinInt(64), x) /\ NumLE(x, MaxInt(64))
 
